@@ -159,6 +159,9 @@ impl WorldC {
                     obs.violate("C20", "healthy-session-ended-with-its-datagram-waiting", "server", format!("slot {} id {}: the update of {} ms ended the session although a fresh datagram was in the socket", j, s.id, dt));
                 }
             }
+            if self.slots[j].fresh_waiting && !recv_fault && r.is_ok() {
+                self.slots[j].server_heard_ms = Some(self.sv_ms);
+            }
             self.slots[j].fresh_waiting = false;
         }
         if r.is_ok() {
@@ -225,6 +228,7 @@ impl WorldC {
                         obs.violate("C20", "connect-with-unknown-id", "events", format!("id {}", client_id));
                     }
                     if let Some(j) = self.slot_of_id(client_id) {
+                        self.slots[j].server_heard_ms = Some(self.sv_ms);
                         self.slots[j].server_conn_events += 1;
                         self.slots[j].server_seen_connected = true;
                         if self.slots[j].server_conn_events > 1 {
@@ -248,6 +252,17 @@ impl WorldC {
                     }
                     obs.count(&format!("server_event_disconnect.{:?}", reason).replace(' ', ""));
                     if let Some(j) = self.slot_of_id(client_id) {
+                        // nobody decided to end it and the server read an authentic datagram of this session (at the latest the
+                        // response it accepted) no longer than the timeout ago: neither a timeout nor anything else is due
+                        let s = &self.slots[j];
+                        if let Some(heard) = s.server_heard_ms {
+                            if reason == DisconnectReason::Transport && s.decided_side.is_none() && !s.app_disconnected_client && !s.app_disconnected_server && !s.tainted {
+                                obs.count("oracle.C20.no_early_timeout");
+                                if self.sv_ms - heard <= self.timeout_s * 1000 {
+                                    obs.violate("C20", "healthy-session-ended-before-its-timeout", "server", format!("slot {} id {}: authentic datagram read {} ms ago, timeout {} s", j, s.id, self.sv_ms - heard, self.timeout_s));
+                                }
+                            }
+                        }
                         self.slots[j].server_disc_events += 1;
                         if self.slots[j].decided_at_ms.is_none() {
                             self.slots[j].decided_at_ms = Some(self.sv_ms);
@@ -679,6 +694,13 @@ impl WorldC {
                 let rix = op.a as usize % self.ledger.len();
                 let (bytes, from, to) = self.ledger[rix].clone();
                 self.meta[rix].4 += 1;
+                // a replayed datagram may be the first copy of a newer one to arrive: what the pool still holds from further back
+                // than the replay window is then no longer "fresh"
+                if let (Some(j), ep, n, ..) = self.meta[rix] {
+                    if ep == self.slots[j].epoch {
+                        self.slots[j].newest_handed = self.slots[j].newest_handed.max(n);
+                    }
+                }
                 obs.count("fault.replay");
                 let from = if op.b % 4 == 3 { self.slots[op.c as usize % ns].addr } else { from };
                 self.enqueue(to, bytes, from);
